@@ -11,6 +11,7 @@ namespace Xp.C09
 
 inductive Ctrl where
   | none | owner | xr | other    -- no controller / the writer itself / the bound XR / someone else
+  | xrPlain                      -- no controller, but the XR is listed as a plain (non-controller) owner
   deriving DecidableEq, Repr, Inhabited
 
 abbrev Data := List (String × String)
@@ -38,7 +39,7 @@ def desiredData (filter : List String) (details : Data) : Data := details.filter
 /-- resource.ConnectionSecretMustBeControllableBy(uid) for the writer `me` -/
 def controllable (s : Secret) (me : Ctrl) : Bool :=
   match s.ctrl with
-  | .none => s.conn
+  | .none | .xrPlain => s.conn
   | c => c = me
 
 /-- the no-op test of PublishConnection: is some key to be published missing or different? -/
@@ -115,5 +116,18 @@ def extract (conn : Data) (fieldAt : String → Option String) : List Cfg → Da
         | none => extract conn fieldAt cs acc
         | some v => extract conn fieldAt cs (dset acc c.name v)
     | _ => extract conn fieldAt cs acc
+
+
+/-- Provenance through the P&T composer: one referenced composed resource with template
+connection detail `FromConnectionSecretKey key`. A resource controlled by another owner makes
+the apply fail (MustBeControllableBy), so its connection details are never extracted and
+nothing is published; otherwise the extracted detail is published to the XR's secret. -/
+def ptFlow (cdCtrl : Ctrl) (cdSecret : Option Data) (key : String) (xrSecret : Slot) : Res × Bool :=
+  if cdCtrl = .other then (⟨xrSecret, false, true, 0⟩, false)
+  else
+    let conn := cdSecret.getD []
+    match extract conn (fun _ => none) [⟨"FromConnectionSecretKey", key, some key, none, none⟩] [] with
+    | none => (⟨xrSecret, false, true, 0⟩, false)
+    | some details => (publish true [] details xrSecret, true)
 
 end Xp.C09
